@@ -148,6 +148,10 @@ def Stats.onFree (st : Stats) (k : Kind) (n : Nat) : Stats :=
 
 def St.setCell (s : St) (c : Nat) (cell : Cell) : St := { s with heap := s.heap.set c cell }
 
+/-- replace cell c, the temps and the statistics -/
+def St.upd (s : St) (c : Nat) (cell : Cell) (t : List Val) (st : Stats) : St :=
+  { s with heap := s.heap.set c cell, temps := t, stats := st }
+
 /-- read a location; touching a freed container is a use-after-free -/
 def readLoc (s : St) : Loc → M Val
   | .root i =>
@@ -219,14 +223,13 @@ def rel1 (s : St) : M St :=
       if !cell.live then throw .uaf
       else
         let st := if cell.kind.isStr then { s.stats with allocdStrings := s.stats.allocdStrings - 1 } else s.stats
-        let (r', dead) := decRef cell.kind cell.ref
-        if !dead then pure { (s.setCell c { cell with ref := r' }) with temps := rest, stats := st }
+        let dr := decRef cell.kind cell.ref
+        if !dr.2 then pure (s.upd c { cell with ref := dr.1 } rest st)
         else if cell.kind == .obj && !cell.destructed then throw .fatal
         else if cell.kind == .obj && !(cell.items.all Val.isNum) then throw .objvars
         else
-          pure { (s.setCell c { cell with ref := r', live := false, items := [] }) with
-                 temps := cell.items.reverse ++ rest,
-                 stats := st.onFree cell.kind cell.items.length }
+          pure (s.upd c { cell with ref := dr.1, live := false, items := [] } (cell.items.reverse ++ rest)
+                  (st.onFree cell.kind cell.items.length))
 
 /-- run `rel1` until the temps are back at `depth` entries -/
 def relLoop : Nat → Nat → St → M St
